@@ -214,7 +214,24 @@ pub(super) fn addr_spec() -> impl Parser<char, (String, String), Error = Cheap<c
 
 // local-part      =       dot-atom / quoted-string / obs-local-part
 pub(super) fn local_part() -> impl Parser<char, Vec<char>, Error = Cheap<char>> {
-    choice((dot_atom(), quoted_string(), obs_local_part()))
+    choice((dot_atom(), quoted_local_part(), obs_local_part()))
+}
+
+// A quoted-string local part, kept verbatim (with its quotes, quoted-pairs and
+// white space) so that the address stays exactly the one that was written
+fn quoted_local_part() -> impl Parser<char, Vec<char>, Error = Cheap<char>> {
+    rfc2234::dquote()
+        .chain(
+            choice((
+                rfc2234::wsp().map(|c| vec![c]),
+                qtext().map(|c| vec![c]),
+                just('\\').chain(choice((text(), one_of("\0\n\r")))),
+                rfc5336::utf8_non_ascii().map(|c| vec![c]),
+            ))
+            .repeated()
+            .flatten(),
+        )
+        .chain(rfc2234::dquote())
 }
 
 // domain          =       dot-atom / domain-literal / obs-domain
